@@ -84,9 +84,9 @@ def zRho (sqrt : K → K) (mask : Arr Bool) (s : K × K) (i j : Int) : K := zRad
 
 /-- `theta = angle(-rr·e^{iα} + i·cc·e^{iα})` with `ca = cos α`, `sa = sin α`, `α = (90 - rotate)·π/180` -/
 def zTheta (atan2 : K → K → K) (ca sa : K) (mask : Arr Bool) (s : K × K) (i j : Int) : K :=
-  let rr := zRR mask s i
-  let cc := zCC mask s j
-  atan2 (-rr * sa + cc * ca) (-rr * ca - cc * sa)
+  -- the REGENERATED real / imaginary part of the argument of `np.angle` (`Gen.zThetaArg`); `np.angle z = atan2 (im z) (re z)`
+  let z := Gen.zThetaArg (zRR mask s i) (zCC mask s j) ca sa
+  atan2 z.2 z.1
 
 end Coords
 
